@@ -31,8 +31,10 @@ Theorem pool1_order_extends_graph cfg sch s i j sc ti :
              (is_done (loc tj) = true \/ (s_when sc = Always /\ is_terminal (loc tj) = true)).
 Proof. exact (started_after_dependencies_lemma cfg sch s i j sc ti). Qed.
 
-(* the regenerated table *)
+(* the regenerated table (premise: the transition of the repair of P14b is in the table of the tree
+   that has the repair; checked on every run) *)
 Theorem handler_within_table cfg s sc t :
+  (fixed_P14b cfg = true -> table_P14b = true) ->
   match handler cfg s sc t with
   | HNext l _ _ => exists e, snd l = Some e /\ allowed (fst (loc t)) e = Some (fst l)
   | _ => True
@@ -45,18 +47,19 @@ Definition C13_full : Prop :=
 
 Definition mkstep i w deps outs pr :=
   {| s_id := i; s_when := w; s_deps := deps; s_outs := outs; s_proc := pr; s_sup := VChanged; s_thor := VChanged |}.
-Definition mkcfg steps ex pool a b c d e :=
+Definition mkcfg steps ex pool a b c d e f g :=
   {| c_steps := steps; c_exists := ex; c_pool := pool; c_cap := 65536;
-     fix_shared_pool := a; fix_atomic_acquire := b; fixed_P12 := c; fixed_P13 := d; fixed_P14 := e |}.
+     fix_shared_pool := a; fix_atomic_acquire := b; fixed_P12 := c; fixed_P13 := d; fixed_P14 := e;
+     fixed_P14b := f; fixed_P16 := g |}.
 Definition round_robin (cfg : config) (n : nat) : list tid := flat_map (fun _ => all_tids cfg) (seq 0 n).
 Definition steps_only (cfg : config) (n : nat) : list tid := flat_map (fun _ => map Step (step_ids cfg)) (seq 0 n).
 Definition three := [mkstep 0 ByDeps [] [] (Exits 0 0 0); mkstep 1 ByDeps [] [] (Exits 0 0 0); mkstep 2 ByDeps [] [] (Exits 0 0 0)].
 
 (* the tree before b7ee5068: one counter per step thread *)
-Definition cfg_per_thread := mkcfg three [] 1 false false true true true.
+Definition cfg_per_thread := mkcfg three [] 1 false false true true true true true.
 (* one shared counter, but test (WaitingToRun) and decrement (Running) in different iterations *)
-Definition cfg_separate := mkcfg three [] 1 true false true true true.
-Definition cfg_fixed (pool : N) := mkcfg three [] pool true true true true true.
+Definition cfg_separate := mkcfg three [] 1 true false true true true true true.
+Definition cfg_fixed (pool : N) := mkcfg three [] pool true true true true true true true.
 
 Definition max_running (cfg : config) (sch : list tid) : option nat :=
   match init cfg with
